@@ -518,6 +518,10 @@ class ConfigParser(object):
     basic_type_tokens = [tokenize.NAME, tokenize.NUMBER, tokenize.STRING]
     continue_parsing = self._current_token.type in basic_type_tokens
     if not continue_parsing:
+      if token_value:
+        # A leading dash was consumed, which is only valid before a basic type
+        # (otherwise e.g. `-@ref` would silently be parsed as `@ref`).
+        self._raise_syntax_error("Unexpected token after '-'.")
       return False, None
 
     num_tokens = 0
